@@ -38,6 +38,7 @@ type replayFile struct {
 	Property  string            `json:"property"`
 	Decisions []Decision        `json:"decisions,omitempty"`
 	Retries   int               `json:"retries,omitempty"`
+	Packages  []string          `json:"packages,omitempty"`
 }
 
 type replayOutcome struct {
@@ -59,6 +60,7 @@ func Main(spec *Spec, opt Options) int {
 		fmt.Printf("INCONCLUSIVE property=%s reason=load-failed\n", spec.Property)
 		return 2
 	}
+	replayExtraPkgs = spec.Packages
 	w.Tier = opt.Tier
 	w.Workers = opt.Workers
 	w.Seed = opt.Seed
@@ -296,6 +298,19 @@ func (w *World) knownWhat(prop, id string) string {
 }
 
 func writeReplay(path, prop string, r *HarnessResult, v *Violation) {
+	defer func() {
+		// record the spec's harness packages so that a stand-alone replay overlays cross-package helpers too
+		b, err := os.ReadFile(path)
+		if err != nil {
+			return
+		}
+		var rf replayFile
+		if json.Unmarshal(b, &rf) == nil {
+			rf.Packages = replayExtraPkgs
+			nb, _ := json.MarshalIndent(rf, "", " ")
+			os.WriteFile(path, nb, 0o644)
+		}
+	}()
 	rf := replayFile{Harness: strings.Split(r.Entry, "#")[0], Assertion: v.Assertion, Msg: v.Msg, Inputs: v.Inputs, Choices: v.Choices,
 		Params: r.Spec.Params, Float: r.Spec.Float, Pkg: r.Spec.Pkg, Property: prop, Decisions: v.Decisions, Retries: r.Spec.ReplayRetries}
 	b, _ := json.MarshalIndent(rf, "", " ")
@@ -305,8 +320,12 @@ func writeReplay(path, prop string, r *HarnessResult, v *Violation) {
 // nativeReplay compiles the harness package natively (go test -overlay) and runs the replay files.
 func (w *World) nativeReplay(root, pkgPath string, paths []string) (map[string]*replayOutcome, string) {
 	rel := "./" + strings.TrimPrefix(pkgPath, "github.com/thanos-io/thanos/")
+	replayExtraPkgs = w.SpecFile.Packages
 	return NativeReplay(root, rel, paths, 240*time.Second)
 }
+
+// replayExtraPkgs: harness packages to overlay in addition to the one under test (cross-package helpers).
+var replayExtraPkgs []string
 
 func NativeReplay(root, rel string, paths []string, timeout time.Duration) (map[string]*replayOutcome, string) {
 	out := map[string]*replayOutcome{}
@@ -314,12 +333,27 @@ func NativeReplay(root, rel string, paths []string, timeout time.Duration) (map[
 	if err != nil {
 		return out, "overlay: " + err.Error()
 	}
+	for _, extra := range replayExtraPkgs {
+		if strings.TrimPrefix(extra, "./") == strings.TrimPrefix(rel, "./") {
+			continue
+		}
+		ov2, err := HarnessOverlay(filepath.Join(root, "harness"), []string{extra}, false)
+		if err != nil {
+			return out, "overlay: " + err.Error()
+		}
+		for k, v := range ov2 {
+			ov[k] = v
+		}
+	}
 	// generate the test driver: all exported Verif* funcs in harness files
 	var entries []string
 	pkgName := ""
 	for virt, real := range ov {
 		if strings.HasSuffix(virt, "_test.go") || strings.HasSuffix(virt, "zz_verif_rt.go") {
 			continue
+		}
+		if filepath.Dir(virt) != filepath.Join(repoDir, strings.TrimPrefix(rel, "./")) {
+			continue // helper files of other harness packages
 		}
 		b, _ := os.ReadFile(real)
 		for _, l := range strings.Split(string(b), "\n") {
@@ -618,6 +652,7 @@ func ReplayMain(root, file string) int {
 		return 3
 	}
 	rel := "./" + strings.TrimPrefix(rf.Pkg, "github.com/thanos-io/thanos/")
+	replayExtraPkgs = rf.Packages
 	out, note := NativeReplay(root, rel, []string{file}, 240*time.Second)
 	if note != "" {
 		fmt.Fprintln(os.Stderr, note)
